@@ -1,7 +1,333 @@
+/-
+Helper lemmas for `Bolt.Props.C12Tree`: the independent reader of `Model/Format.lean` on a page
+image that sits at an arbitrary offset of a larger file (locality + shift of `File.read`), the
+single-node steps of `decodeTree`, and the twins `bytesLt`/`keysAscending` of the tree order.
+-/
 import Bolt.Model.Encode
 import Bolt.Model.BTreeInv
 import Bolt.Lemmas.Encode
+import Bolt.Lemmas.BTreeOps
 namespace Bolt.FormatTreeL
-open Bolt Bolt.BTree
+open Bolt Bolt.BTree Bolt.Enc
+
+/-! ### locality + shift -/
+
+/-- `f` read from `base` on looks like `g` read from 0 on, for `span` bytes -/
+def Agree (f g : File) (base span : Nat) : Prop := ∀ j, j < span → f.get (base + j) = g.get j
+
+theorem read_at {f g : File} {base span : Nat} (h : Agree f g base span) {a b : Nat} (n : Nat)
+    (ha : a = base + b) (hb : b + n ≤ span) : f.read a n = g.read b n := by
+  subst ha
+  unfold File.read
+  apply List.map_congr_left
+  intro j hj
+  have := List.mem_range.mp hj
+  rw [Nat.add_assoc]
+  exact h (b + j) (by omega)
+
+theorem u16_at {f g : File} {base span : Nat} (h : Agree f g base span) {a b : Nat}
+    (ha : a = base + b) (hb : b + 2 ≤ span) : f.u16 a = g.u16 b := by
+  unfold File.u16; rw [read_at h 2 ha hb]
+
+theorem u32_at {f g : File} {base span : Nat} (h : Agree f g base span) {a b : Nat}
+    (ha : a = base + b) (hb : b + 4 ≤ span) : f.u32 a = g.u32 b := by
+  unfold File.u32; rw [read_at h 4 ha hb]
+
+theorem u64_at {f g : File} {base span : Nat} (h : Agree f g base span) {a b : Nat}
+    (ha : a = base + b) (hb : b + 8 ≤ span) : f.u64 a = g.u64 b := by
+  unfold File.u64; rw [read_at h 8 ha hb]
+
+/-- the page header only reads the 16 bytes at `base` -/
+theorem pageHdrAt_at {f g : File} {base span : Nat} (h : Agree f g base span) (hs : 16 ≤ span) :
+    pageHdrAt f base = pageHdrAt g 0 := by
+  unfold pageHdrAt
+  rw [u64_at h (a := base) (b := 0) (by omega) (by omega),
+      u16_at h (a := base + 8) (b := 0 + 8) (by omega) (by omega),
+      u16_at h (a := base + 10) (b := 0 + 10) (by omega) (by omega),
+      u32_at h (a := base + 12) (b := 0 + 12) (by omega) (by omega)]
+
+theorem leafElemAt_eq (f : File) (base limit i : Nat) :
+    leafElemAt f base limit i =
+      if base + 16 + 16 * i + 16 > limit then none else
+      if base + 16 + 16 * i + f.u32 (base + 16 + 16 * i + 4) + f.u32 (base + 16 + 16 * i + 8) +
+          f.u32 (base + 16 + 16 * i + 12) > limit then none else
+      some { flags := f.u32 (base + 16 + 16 * i),
+             key := f.read (base + 16 + 16 * i + f.u32 (base + 16 + 16 * i + 4))
+                      (f.u32 (base + 16 + 16 * i + 8)),
+             val := f.read (base + 16 + 16 * i + f.u32 (base + 16 + 16 * i + 4) +
+                      f.u32 (base + 16 + 16 * i + 8)) (f.u32 (base + 16 + 16 * i + 12)) } := rfl
+
+theorem branchElemAt_eq (f : File) (base limit i : Nat) :
+    branchElemAt f base limit i =
+      if base + 16 + 16 * i + 16 > limit then none else
+      if base + 16 + 16 * i + f.u32 (base + 16 + 16 * i) + f.u32 (base + 16 + 16 * i + 4) > limit
+        then none else
+      some { key := f.read (base + 16 + 16 * i + f.u32 (base + 16 + 16 * i))
+                      (f.u32 (base + 16 + 16 * i + 4)),
+             pgid := f.u64 (base + 16 + 16 * i + 8) } := rfl
+
+/-- a leaf element is read from `[base, limit)` only -/
+theorem leafElemAt_at {f g : File} {base span : Nat} (h : Agree f g base span) (i : Nat) :
+    leafElemAt f base (base + span) i = leafElemAt g 0 span i := by
+  rw [leafElemAt_eq, leafElemAt_eq]
+  simp only [Nat.zero_add]
+  by_cases h1 : 16 + 16 * i + 16 > span
+  · rw [if_pos (by omega), if_pos h1]
+  · rw [if_neg (by omega), if_neg h1]
+    rw [u32_at h (a := base + 16 + 16 * i) (b := 16 + 16 * i) (by omega) (by omega),
+        u32_at h (a := base + 16 + 16 * i + 4) (b := 16 + 16 * i + 4) (by omega) (by omega),
+        u32_at h (a := base + 16 + 16 * i + 8) (b := 16 + 16 * i + 8) (by omega) (by omega),
+        u32_at h (a := base + 16 + 16 * i + 12) (b := 16 + 16 * i + 12) (by omega) (by omega)]
+    generalize g.u32 (16 + 16 * i + 4) = pos
+    generalize g.u32 (16 + 16 * i + 8) = ks
+    generalize g.u32 (16 + 16 * i + 12) = vs
+    by_cases h2 : 16 + 16 * i + pos + ks + vs > span
+    · rw [if_pos (by omega), if_pos h2]
+    · rw [if_neg (by omega), if_neg h2]
+      rw [read_at h (a := base + 16 + 16 * i + pos) (b := 16 + 16 * i + pos) ks (by omega) (by omega),
+          read_at h (a := base + 16 + 16 * i + pos + ks) (b := 16 + 16 * i + pos + ks) vs
+            (by omega) (by omega)]
+
+theorem branchElemAt_at {f g : File} {base span : Nat} (h : Agree f g base span) (i : Nat) :
+    branchElemAt f base (base + span) i = branchElemAt g 0 span i := by
+  rw [branchElemAt_eq, branchElemAt_eq]
+  simp only [Nat.zero_add]
+  by_cases h1 : 16 + 16 * i + 16 > span
+  · rw [if_pos (by omega), if_pos h1]
+  · rw [if_neg (by omega), if_neg h1]
+    rw [u32_at h (a := base + 16 + 16 * i) (b := 16 + 16 * i) (by omega) (by omega),
+        u32_at h (a := base + 16 + 16 * i + 4) (b := 16 + 16 * i + 4) (by omega) (by omega),
+        u64_at h (a := base + 16 + 16 * i + 8) (b := 16 + 16 * i + 8) (by omega) (by omega)]
+    generalize g.u32 (16 + 16 * i) = pos
+    generalize g.u32 (16 + 16 * i + 4) = ks
+    by_cases h2 : 16 + 16 * i + pos + ks > span
+    · rw [if_pos (by omega), if_pos h2]
+    · rw [if_neg (by omega), if_neg h2]
+      rw [read_at h (a := base + 16 + 16 * i + pos) (b := 16 + 16 * i + pos) ks (by omega) (by omega)]
+
+theorem leafElems_at {f g : File} {base span : Nat} (h : Agree f g base span) (count : Nat) :
+    leafElems f base (base + span) count = leafElems g 0 span count := by
+  unfold leafElems
+  rw [funext (leafElemAt_at h)]
+
+theorem branchElems_at {f g : File} {base span : Nat} (h : Agree f g base span) (count : Nat) :
+    branchElems f base (base + span) count = branchElems g 0 span count := by
+  unfold branchElems
+  rw [funext (branchElemAt_at h)]
+
+/-- a file that holds `img` at `base` agrees, over any span, with `img` padded by the file's own
+    bytes -/
+theorem agree_of_holds (f : File) (base span : Nat) (img : Bytes)
+    (hold : ∀ i, i < img.length → f.get (base + i) = img.getD i 0) :
+    Agree f (fileOf (img ++ f.read (base + img.length) (span - img.length))) base span := by
+  intro j hj
+  by_cases hji : j < img.length
+  · rw [hold j hji]
+    simp [fileOf, List.getD_eq_getElem?_getD, List.getElem?_append_left hji]
+  · have hj' : j = img.length + (j - img.length) := by omega
+    have hlt : j - img.length < (f.read (base + img.length) (span - img.length)).length := by
+      rw [File.read_length]; omega
+    conv => rhs; rw [hj']
+    rw [fileOf_get_append _ _ _ hlt]
+    simp only [File.read, List.getElem_map, List.getElem_range]
+    congr 1
+    omega
+
+/-! ### the reader's order checks are the tree's order -/
+
+theorem bytesLt_eq : ∀ a b : Bytes, bytesLt a b = Bytes.lt a b
+  | [], [] => rfl
+  | [], _ :: _ => rfl
+  | _ :: _, [] => rfl
+  | a :: as, b :: bs => by
+    rw [bytesLt, Bytes.lt, bytesLt_eq as bs]
+
+theorem keysAscending_eq : ∀ l : List Bytes, keysAscending l = sortedKeys l
+  | [] => rfl
+  | [_] => rfl
+  | a :: b :: r => by
+    rw [keysAscending, sortedKeys, bytesLt_eq, keysAscending_eq (b :: r)]
+
+/-! ### plain leaf items -/
+
+theorem decodeLeafItems_plain (f : File) (ps hwm fuel : Nat) : ∀ (es : List LeafElem) (ph : Phys),
+    (∀ e ∈ es, e.flags % 2 = 0) →
+    decodeLeafItems f ps hwm fuel es ph = (es.map (fun e => (e.key, SVal.val e.val)), ph)
+  | [], ph, _ => by rw [decodeLeafItems]; rfl
+  | e :: rest, ph, h => by
+    have h0 : ¬ (e.flags % 2 = 1) := by
+      have := h e (List.mem_cons_self ..); omega
+    rw [decodeLeafItems]
+    simp only [if_neg h0]
+    rw [decodeLeafItems_plain f ps hwm fuel rest ph (fun x hx => h x (List.mem_cons_of_mem _ hx))]
+    rfl
+
+/-! ### single pages at an arbitrary offset -/
+
+theorem leafData_mem_le : ∀ (es : List LeafElem) (e : LeafElem), e ∈ es →
+    e.key.length + e.val.length ≤ (leafData es).length
+  | x :: r, e, he => by
+    simp only [leafData, List.length_append]
+    rcases List.mem_cons.mp he with rfl | he
+    · omega
+    · have := leafData_mem_le r e he; omega
+
+theorem branchData_mem_le : ∀ (es : List BranchElem) (e : BranchElem), e ∈ es →
+    e.key.length ≤ (branchData es).length
+  | x :: r, e, he => by
+    simp only [branchData, List.length_append]
+    rcases List.mem_cons.mp he with rfl | he
+    · omega
+    · have := branchData_mem_le r e he; omega
+
+theorem leafPage_length (id ov : Nat) (es : List LeafElem) :
+    (leafPage id ov es).length = 16 + 16 * es.length + (leafData es).length := by
+  simp [leafPage, leafElemHeaders_length]; omega
+
+theorem branchPage_length (id ov : Nat) (es : List BranchElem) :
+    (branchPage id ov es).length = 16 + 16 * es.length + (branchData es).length := by
+  simp [branchPage, branchElemHeaders_length]; omega
+
+/-- header and elements of a leaf page image held at `base` -/
+theorem leaf_at (f : File) (base span id ov : Nat) (es : List LeafElem)
+    (hold : ∀ i, i < (leafPage id ov es).length → f.get (base + i) = (leafPage id ov es).getD i 0)
+    (hid : id < 2^64) (hov : ov < 2^32) (hn : es.length < 0xFFFF) (hspan : span < 2^32)
+    (hsz : (leafPage id ov es).length ≤ span) (hfl : ∀ e ∈ es, e.flags < 2^32) :
+    pageHdrAt f base = { id := id, flags := V2.leafPageFlag, count := es.length, overflow := ov } ∧
+    leafElems f base (base + span) es.length = some es := by
+  have hag := agree_of_holds f base span _ hold
+  rw [leafPage_length] at hsz
+  constructor
+  · rw [pageHdrAt_at hag (by omega)]
+    have : leafPage id ov es ++ f.read (base + (leafPage id ov es).length) (span - (leafPage id ov es).length)
+        = header id V2.leafPageFlag es.length ov ++ (leafElemHeaders 0 (16 + 16 * es.length) es ++
+            (leafData es ++ f.read (base + (leafPage id ov es).length) (span - (leafPage id ov es).length))) := by
+      simp [leafPage]
+    rw [this]
+    exact pageHdrAt_header id V2.leafPageFlag es.length ov _ hid (by decide) (by omega) hov
+  · rw [leafElems_at hag]
+    apply leafElems_leafPage
+    refine ⟨hn, ?_, hsz, hspan⟩
+    intro e he
+    have := leafData_mem_le es e he
+    exact ⟨hfl e he, by omega, by omega⟩
+
+theorem branch_at (f : File) (base span id ov : Nat) (es : List BranchElem)
+    (hold : ∀ i, i < (branchPage id ov es).length → f.get (base + i) = (branchPage id ov es).getD i 0)
+    (hid : id < 2^64) (hov : ov < 2^32) (hn : es.length < 0xFFFF) (hspan : span < 2^32)
+    (hsz : (branchPage id ov es).length ≤ span) (hpg : ∀ e ∈ es, e.pgid < 2^64) :
+    pageHdrAt f base = { id := id, flags := V2.branchPageFlag, count := es.length, overflow := ov } ∧
+    branchElems f base (base + span) es.length = some es := by
+  have hag := agree_of_holds f base span _ hold
+  rw [branchPage_length] at hsz
+  constructor
+  · rw [pageHdrAt_at hag (by omega)]
+    have : branchPage id ov es ++ f.read (base + (branchPage id ov es).length) (span - (branchPage id ov es).length)
+        = header id V2.branchPageFlag es.length ov ++ (branchElemHeaders 0 (16 + 16 * es.length) es ++
+            (branchData es ++ f.read (base + (branchPage id ov es).length) (span - (branchPage id ov es).length))) := by
+      simp [branchPage]
+    rw [this]
+    exact pageHdrAt_header id V2.branchPageFlag es.length ov _ hid (by decide) (by omega) hov
+  · rw [branchElems_at hag]
+    apply branchElems_branchPage
+    refine ⟨hn, ?_, hsz, hspan⟩
+    intro e he
+    have := branchData_mem_le es e he
+    exact ⟨by omega, hpg e he⟩
+
+
+/-! ### one step of `decodeTree` -/
+
+theorem span_lt (ov ps : Nat) (hps : 0 < ps) (h : (ov + 1) * ps < 2^32) : ov < 2^32 := by
+  have : ov + 1 ≤ (ov + 1) * ps := Nat.le_mul_of_pos_right _ hps
+  omega
+
+/-- the reader on a plain leaf page held at its page offset -/
+theorem decodeTree_leaf (f : File) (ps hwm fuel pg ov : Nat) (ph : Phys) (es : List LeafElem)
+    (hps : 0 < ps)
+    (hold : ∀ i, i < (leafPage pg ov es).length → f.get (pg * ps + i) = (leafPage pg ov es).getD i 0)
+    (h2 : 2 ≤ pg) (hhwm : pg + ov < hwm) (hw : hwm < 2^64) (hn : es.length < 0xFFFF)
+    (hspan : (ov + 1) * ps < 2^32) (hsz : (leafPage pg ov es).length ≤ (ov + 1) * ps)
+    (hfl : ∀ e ∈ es, e.flags % 2 = 0 ∧ e.flags < 2^32)
+    (hsorted : sortedKeys (es.map (·.key)) = true) (hne : ∀ e ∈ es, e.key ≠ []) :
+    decodeTree f ps hwm (fuel + 1) pg ph =
+      (es.map (fun e => (e.key, SVal.val e.val)),
+       { pages := ph.pages ++ [(pg, ov, V2.leafPageFlag)], errors := ph.errors }) := by
+  obtain ⟨hh, he⟩ := leaf_at f (pg * ps) ((ov + 1) * ps) pg ov es hold (by omega)
+    (span_lt ov ps hps hspan) hn hspan hsz (fun e h => (hfl e h).2)
+  rw [decodeTree]
+  have hany : es.any (fun e => e.key.isEmpty) = false := by
+    rw [List.any_eq_false]
+    intro e h
+    simp only [List.isEmpty_iff]
+    exact hne e h
+  simp only [hh, he, keysAscending_eq, hsorted, hany]
+  rw [if_neg (show ¬ (pg < 2 ∨ pg ≥ hwm) by omega)]
+  simp only [ne_eq, not_true_eq_false, if_false, if_true]
+  rw [if_neg (show ¬ (pg + ov ≥ hwm) by omega)]
+  rw [decodeLeafItems_plain _ _ _ _ _ _ (fun e h => (hfl e h).1)]
+  rfl
+
+
+/-- the reader on a branch page held at its page offset: it goes on with the children -/
+theorem decodeTree_branch (f : File) (ps hwm fuel pg ov : Nat) (ph : Phys) (es : List BranchElem)
+    (hps : 0 < ps)
+    (hold : ∀ i, i < (branchPage pg ov es).length → f.get (pg * ps + i) = (branchPage pg ov es).getD i 0)
+    (h2 : 2 ≤ pg) (hhwm : pg + ov < hwm) (hw : hwm < 2^64) (hn : es.length < 0xFFFF)
+    (hspan : (ov + 1) * ps < 2^32) (hsz : (branchPage pg ov es).length ≤ (ov + 1) * ps)
+    (hpg : ∀ e ∈ es, e.pgid < 2^64)
+    (hsorted : sortedKeys (es.map (·.key)) = true) (hne : es ≠ []) :
+    decodeTree f ps hwm (fuel + 1) pg ph =
+      decodeKids f ps hwm fuel es
+        { pages := ph.pages ++ [(pg, ov, V2.branchPageFlag)], errors := ph.errors } := by
+  obtain ⟨hh, he⟩ := branch_at f (pg * ps) ((ov + 1) * ps) pg ov es hold (by omega)
+    (span_lt ov ps hps hspan) hn hspan hsz hpg
+  rw [decodeTree]
+  have hemp : es.isEmpty = false := by
+    cases es with
+    | nil => exact absurd rfl hne
+    | cons _ _ => rfl
+  have hfl : ¬ (V2.branchPageFlag = V2.leafPageFlag) := by decide
+  simp only [hh, he, keysAscending_eq, hsorted, hemp, hfl]
+  rw [if_neg (show ¬ (pg < 2 ∨ pg ≥ hwm) by omega)]
+  simp only [ne_eq, not_true_eq_false, if_false, if_true]
+  rw [if_neg (show ¬ (pg + ov ≥ hwm) by omega)]
+  rfl
+
+theorem decodeKids_nil (f : File) (ps hwm fuel : Nat) (ph : Phys) :
+    decodeKids f ps hwm fuel [] ph = ([], ph) := by
+  rw [decodeKids]
+
+/-- one child decoded without error: first key not below the separator, every key below the next
+    separator -/
+theorem decodeKids_cons (f : File) (ps hwm fuel : Nat) (e : BranchElem) (rest : List BranchElem)
+    (ph ph1 : Phys) (a : List (Bytes × SVal))
+    (h : decodeTree f ps hwm fuel e.pgid ph = (a, ph1))
+    (hfirst : ∀ kv ∈ a.head?, Bytes.lt kv.1 e.key = false)
+    (hnext : ∀ nxt ∈ rest.head?, ∀ kv ∈ a, Bytes.lt kv.1 nxt.key = true) :
+    decodeKids f ps hwm fuel (e :: rest) ph =
+      (a ++ (decodeKids f ps hwm fuel rest ph1).1, (decodeKids f ps hwm fuel rest ph1).2) := by
+  rw [decodeKids, h]
+  have hany : ∀ nxt ∈ rest.head?, a.any (fun kv => !Bytes.lt kv.1 nxt.key) = false := by
+    intro nxt hn
+    rw [List.any_eq_false]
+    intro kv hkv
+    rw [hnext nxt hn kv hkv]; decide
+  cases rest with
+  | nil =>
+    cases a with
+    | nil => rfl
+    | cons kv tl =>
+      obtain ⟨k, v⟩ := kv
+      have := hfirst (k, v) (by simp)
+      simp only [bytesLt_eq, this, Bool.false_eq_true, if_false]
+  | cons nxt tl =>
+    have h2 := hany nxt (by simp)
+    cases a with
+    | nil => simp only [bytesLt_eq, h2, Bool.false_eq_true, if_false]
+    | cons kv tl =>
+      obtain ⟨k, v⟩ := kv
+      have := hfirst (k, v) (by simp)
+      simp only [bytesLt_eq, h2, this, Bool.false_eq_true, if_false]
 
 end Bolt.FormatTreeL
